@@ -9,6 +9,7 @@
 #include <math.h>
 
 static const scpi_command_t no_cmds[] = { SCPI_CMD_LIST_END };
+extern char *scpi_ecvt(double arg, int ndigits, int *decpt, int *sign, char *buf, size_t bufsize);   /* utils.c, built with -Dstatic= */
 
 static void report(const char *input, size_t ret, const char *buf, size_t buflen, int ptr_ok) {
     size_t n = 0; int nul = 0;
@@ -33,7 +34,15 @@ void run_buffmt(const char *input) {
         b = bits; memcpy(&d, &b, 8);
         buf = (char *) malloc(buflen ? buflen : 1); memset(buf, 0xAA, buflen ? buflen : 1);
         r = SCPI_dtostre(d, buflen ? buf : buf + 1, buflen, (unsigned char) prec, (unsigned char) flags);
-        report(input, buflen ? strnlen(buf, buflen) : 0, buf, buflen, r == (buflen ? buf : buf + 1)); free(buf);
+        {   /* digits and decimal exponent produced by the digit generator, for the assembly model */
+            char dg[40]; int decpt = 0, sg = 0; size_t n = 0; int nul = 0; double a = signbit(d) ? -d : d;
+            memset(dg, 0, sizeof dg);
+            if (isfinite(d)) scpi_ecvt(a, (int) prec, &decpt, &sg, dg, 31);
+            while (n < buflen) { if (buf[n] == 0) { nul = 1; break; } n++; }
+            printf("%s => %zu ", input, buflen ? strnlen(buf, buflen) : 0); h_hex(stdout, buf, n);
+            printf(" %d %d ", nul, r == (buflen ? buf : buf + 1)); h_hexs(stdout, dg); printf(" %d\n", decpt);
+        }
+        free(buf);
     } else if (kind == 'n') {
         unsigned special, unit; int tag; unsigned long long bits; scpi_number_t num; h_env_t e; size_t ret; uint64_t b;
         if (sscanf(rest, "%u %d %llx %u %u", &special, &tag, &bits, &unit, &buflen) != 5) return;
